@@ -1093,6 +1093,12 @@ var alphabetNarrow = []letter{
 	fixed(event{K: evStop, Ch: 0}), fixed(event{K: evStop, Ch: 1}),
 }
 
+var alphabetTiny = []letter{
+	pubLetter(0, []int{1}), pubLetter(1, nil),
+	regLetter(0, 0), regLetter(0, 1), regLetter(1, 0),
+	fixed(event{K: evStop, Ch: 1}),
+}
+
 var prefixes = [][]event{
 	{ // fresh family, nothing locked yet
 		{K: evStartLedger, Ch: 0, Tx: atx{Ver: 0, Tok: 1}},
@@ -1274,21 +1280,222 @@ func outcomeOf(h *history) (string, string) {
 		fmt.Sprintf("%d/%d/%d/%d", reg, relay, refused, fails)
 }
 
+
+// ---------- concurrent part: schedule-independent oracle ----------
+
+// concRun sets up a family (ledger channel 0 locking the watched sub-channels 1 and 2, all with known
+// newest transactions) and then lets three goroutines report registered / progressed / concluded events
+// for the three channels at the same time. Nothing is published meanwhile, so the following holds for
+// EVERY schedule if (and only if) the handling of one registered event is atomic within the family:
+//   - every Register call carries the newest ledger transaction and the newest transactions of 1 and 2;
+//   - Register is called exactly once if some reported registered version is older than the newest
+//     version of its channel, and not at all otherwise (after the first call the whole tree counts as
+//     registered with its newest versions: "the channel tree will be registered only once");
+//   - per client: registered events arrive in strictly increasing version order, each is one of the
+//     reported ones; every progressed/concluded event arrives.
+func concRun(seed int64) (class string, bad []complaint, descr []string) {
+	r := rand.New(rand.NewSource(seed))
+	w := newWorld(rand.New(rand.NewSource(r.Int63())), 3)
+	newestVer := []uint64{1 + uint64(r.Intn(3)), uint64(r.Intn(4)), uint64(r.Intn(4))}
+	setup := []event{
+		{K: evStartLedger, Ch: 0, Tx: atx{Ver: 0, Tok: 1}},
+		{K: evStartSub, Ch: 1, Parent: 0, Tx: atx{Ver: 0, Tok: 2}},
+		{K: evStartSub, Ch: 2, Parent: 0, Tx: atx{Ver: 0, Tok: 3}},
+		{K: evPublish, Ch: 0, Tx: atx{Ver: newestVer[0], Tok: 4, Locked: []int{1, 2}}},
+		{K: evPublish, Ch: 1, Tx: atx{Ver: newestVer[1], Tok: 5}},
+		{K: evPublish, Ch: 2, Tx: atx{Ver: newestVer[2], Tok: 6}},
+	}
+	newestTx := []atx{setup[3].Tx, setup[4].Tx, setup[5].Tx}
+	for _, e := range setup {
+		w.exec(e)
+		descr = append(descr, e.term())
+	}
+	say := func(site, class, f string, a ...interface{}) {
+		bad = append(bad, complaint{site, class, fmt.Sprintf(f, a...)})
+	}
+	// the scripts of the three reporters
+	scripts := make([][]event, 3)
+	outdated := false
+	for ch := 0; ch < 3; ch++ {
+		k := 1 + r.Intn(3)
+		for i := 0; i < k; i++ {
+			e := event{K: evRegistered, Ch: ch, V: uint64(r.Intn(4))}
+			if r.Intn(5) == 0 {
+				e.K = []int{evProgressed, evConcluded}[r.Intn(2)]
+			}
+			if e.K == evRegistered && e.V < newestVer[ch] {
+				outdated = true
+			}
+			scripts[ch] = append(scripts[ch], e)
+			descr = append(descr, "|| "+e.term())
+		}
+	}
+	class = "conc/none-outdated"
+	if outdated {
+		class = "conc/outdated"
+	}
+	start := make(chan struct{})
+	var wg sync.WaitGroup
+	var mu sync.Mutex
+	for ch := 0; ch < 3; ch++ {
+		wg.Add(1)
+		go func(ch int) {
+			defer wg.Done()
+			<-start
+			s := w.sub[ch]
+			id := w.ids[ch]
+			for _, e := range scripts[ch] {
+				var ae channel.AdjudicatorEvent
+				switch e.K {
+				case evRegistered:
+					ae = channel.NewRegisteredEvent(id, &channel.ElapsedTimeout{}, e.V, nil, nil)
+				case evProgressed:
+					ae = channel.NewProgressedEvent(id, &channel.ElapsedTimeout{}, &channel.State{ID: id, Version: e.V}, 0)
+				default:
+					ae = channel.NewConcludedEvent(id, &channel.ElapsedTimeout{}, e.V)
+				}
+				select {
+				case s.ev <- ae:
+				case <-time.After(stuckAfter):
+					mu.Lock()
+					say("local.Watcher", "stuck", "event for channel %d not taken", ch)
+					mu.Unlock()
+					return
+				}
+				select {
+				case <-s.idle:
+				case <-time.After(stuckAfter):
+					mu.Lock()
+					say("local.Watcher", "stuck", "event for channel %d not handled", ch)
+					mu.Unlock()
+					return
+				}
+			}
+		}(ch)
+	}
+	close(start)
+	wg.Wait()
+	outs := w.exec(event{K: evFail, B: false}) // collects the Register calls and drains the client streams
+	ncalls := 0
+	perCh := make([][]output, 3)
+	for _, o := range outs {
+		switch o.Kind {
+		case oRegister:
+			ncalls++
+			ok := o.P == 0 && sameTx(o.Tx, newestTx[0]) && len(o.Subs) == 2
+			for i := 0; ok && i < 2; i++ {
+				ok = o.Subs[i].Has && o.Subs[i].ID == i+1 && sameTx(o.Subs[i].Tx, newestTx[i+1])
+			}
+			if !ok {
+				say("local.Watcher.registerDispute", "conc-wrong-states", "Register called with %s, not with the newest transactions of the tree", o.term())
+			}
+		case oRelay:
+			if o.Ch >= 0 && o.Ch < 3 {
+				perCh[o.Ch] = append(perCh[o.Ch], o)
+			} else {
+				say("local.Watcher.handleEventsFromChain", "conc-spurious-relay", "relayed %s", o.term())
+			}
+		}
+	}
+	want := 0
+	if outdated {
+		want = 1
+	}
+	if ncalls != want {
+		say("local.Watcher.handleRegisteredEvent", "conc-register-count",
+			"Register called %d times, expected %d (the tree must be registered exactly once when an outdated version is reported)", ncalls, want)
+	}
+	for ch := 0; ch < 3; ch++ {
+		// the relayed events must be a subsequence of the reported ones, progress events all of them
+		i := 0
+		var last uint64
+		seen := false
+		for _, o := range perCh[ch] {
+			for i < len(scripts[ch]) && !(scripts[ch][i].K == o.EK && scripts[ch][i].V == o.V) {
+				if scripts[ch][i].K != evRegistered {
+					say("local.Watcher.handleEventsFromChain", "conc-progress-not-relayed", "%s was not relayed", scripts[ch][i].term())
+				}
+				i++
+			}
+			if i == len(scripts[ch]) {
+				say("local.Watcher.handleEventsFromChain", "conc-spurious-relay", "relayed %s was not reported (or twice)", o.term())
+				break
+			}
+			i++
+			if o.EK == evRegistered {
+				if seen && o.V <= last {
+					say("local.Watcher.handleRegisteredEvent", "conc-relay-not-increasing", "channel %d: version %d relayed after %d", ch, o.V, last)
+				}
+				seen, last = true, o.V
+			}
+		}
+		for ; i < len(scripts[ch]); i++ {
+			if scripts[ch][i].K != evRegistered {
+				say("local.Watcher.handleEventsFromChain", "conc-progress-not-relayed", "%s was not relayed", scripts[ch][i].term())
+			}
+		}
+	}
+	for _, o := range outs {
+		descr = append(descr, "=> "+o.term())
+	}
+	w.cleanup()
+	return class, bad, descr
+}
+
+func concurrentPart(gen *rand.Rand, n int, res *hx.Result) {
+	type result struct {
+		class string
+		bad   []complaint
+		descr []string
+	}
+	seeds := make([]int64, n)
+	for i := range seeds {
+		seeds[i] = gen.Int63()
+	}
+	results := make([]result, n)
+	var wg sync.WaitGroup
+	sem := make(chan struct{}, 16)
+	for i := range seeds {
+		wg.Add(1)
+		sem <- struct{}{}
+		go func(i int) {
+			defer wg.Done()
+			c, b, d := concRun(seeds[i])
+			results[i] = result{c, b, d}
+			<-sem
+		}(i)
+	}
+	wg.Wait()
+	for i, r := range results {
+		outcome := "ok"
+		if len(r.bad) > 0 {
+			outcome = "violation"
+		}
+		res.Count(r.class, outcome, fmt.Sprintf("%s/%d", r.class, seeds[i]%7), false)
+		for _, c := range r.bad {
+			res.Fail(hx.Failure{Site: c.site, InputClass: c.class, Case: -1, What: c.what,
+				Replay: map[string]interface{}{"class": r.class, "setup_then_concurrent_events_then_observations": r.descr}})
+		}
+	}
+}
+
 // Run is the C05 driver.
 func Run(seed int64, tier, out string) {
 	hx.Seed(seed)
 	gen := rand.New(rand.NewSource(hx.Rng.Int63()))
 	res := hx.NewResult("C05", seed, tier)
 	res.Rule = "histories of publish / registered / progressed / concluded / start / stop / register-fails events against the real local.Watcher: " +
-		"exhaustive words over a fixed alphabet (1 ledger channel, 2 sub-channels, versions 0..3) after two set-up prefixes, and random histories up to length 60 " +
+		"exhaustive words (quick: length 2 over 20 letters; thorough: length 3 over 20, length 4 over 10, length 5 over 6 letters; 1 ledger channel, 2 sub-channels, versions 0..3) after two set-up prefixes, random histories up to length 60 " +
 		"(5 channel ids, two families, re-watching, duplicate and foreign locked ids; classes: plain, bigver = versions offset by 2^40, nonmono = versions not increasing (correspondence only), multi = multi-ledger assets (correspondence only)). " +
+		"plus concurrent runs (three reporters at once) with a schedule-independent oracle (tree registered exactly once, newest states, relays increasing). " +
 		"distinct = distinct (class, event sequence shape, observed outputs); trivial = histories without any Register call, relay or refusal"
 	var hs []*history
 	classes := []string{"plain", "plain", "bigver", "nonmono", "multi"}
 	if tier == "thorough" {
 		for pi := range prefixes {
-			hs = append(hs, exhaustive(gen, fmt.Sprintf("exh4-p%d", pi), pi, alphabetWide, 4)...)
-			hs = append(hs, exhaustive(gen, fmt.Sprintf("exh5-p%d", pi), pi, alphabetNarrow, 5)...)
+			hs = append(hs, exhaustive(gen, fmt.Sprintf("exh3-p%d", pi), pi, alphabetWide, 3)...)
+			hs = append(hs, exhaustive(gen, fmt.Sprintf("exh4-p%d", pi), pi, alphabetNarrow, 4)...)
+			hs = append(hs, exhaustive(gen, fmt.Sprintf("exh5-p%d", pi), pi, alphabetTiny, 5)...)
 		}
 		for i := 0; i < 3000; i++ {
 			hs = append(hs, randomHistory(gen, classes[i%5], 60))
@@ -1351,6 +1558,11 @@ func Run(seed int64, tier, out string) {
 		}
 	}
 	w.write(cur)
+	nconc := 80
+	if tier == "thorough" {
+		nconc = 3000
+	}
+	concurrentPart(gen, nconc, res)
 	res.Write(out)
 }
 
